@@ -40,7 +40,7 @@ func vfC05DrawHomeOp(t *rapid.T, label string, i int) (op vfC05HomeOp) {
 	js := func(v any) string { b, _ := json.Marshal(v); return string(b) }
 	on := rapid.Bool().Draw(t, label+"_on")
 	op.Kind = rapid.SampledFrom([]string{
-		"safebrowsing", "parental", "safesearch", "filtering_config", "set_rules", "rewrite_add", "rewrite_delete", "services",
+		"safebrowsing", "parental", "safesearch", "filtering_config", "set_rules", "rewrite_add", "rewrite_delete", "services", "services_set",
 	}).Draw(t, label+"_kind")
 	op.Method = http.MethodPost
 	switch op.Kind {
@@ -63,6 +63,10 @@ func vfC05DrawHomeOp(t *rapid.T, label string, i int) (op vfC05HomeOp) {
 	case "rewrite_delete":
 		op.Path = "/control/rewrite/delete"
 		op.Body = js(map[string]any{"domain": fmt.Sprintf("rw%d.vf.test", i%3), "answer": "192.0.2.77"})
+	case "services_set":
+		// the older call, which takes the bare list
+		op.Path = "/control/blocked_services/set"
+		op.Body = js([]string{"9gag", "amazon", "cloudflare", "dailymotion", "discord"}[:i%6%5+map[bool]int{true: 1, false: 0}[on]])
 	default:
 		op.Method, op.Path = http.MethodPut, "/control/blocked_services/update"
 		ids := []string{}
